@@ -29,8 +29,9 @@ import (
 	"github.com/projectcalico/calico/verifkit/ev"
 )
 
-// c28NewLiveClient builds a client complete enough to be driven through onUpdates() and asked for
-// BIRD's configuration, as if the syncer had already reported in-sync.
+// c28NewLiveClient builds a client the way NewCalicoClient does (no datastore, no goroutines):
+// not yet in sync; the route generator and the local BGP peer watcher report ready at once, the
+// syncer's status is driven by the caller through onStatusUpdated.
 func c28NewLiveClient(localSubnet string) *client {
 	c := &client{
 		cache:                    map[string]string{},
@@ -47,13 +48,16 @@ func c28NewLiveClient(localSubnet string) *client {
 		ClusterIPRouteIndex:      NewRouteIndex(),
 		LoadBalancerIPRouteIndex: NewRouteIndex(),
 		configCache:              map[int]*bgpConfigCache{},
-		syncedOnce:               true,
+		stopCh:                   make(chan struct{}),
 	}
 	c.watcherCond = sync.NewCond(&c.cacheLock)
+	c.waitForSync.Add(1)
 	maps.Copy(c.cache, globalDefaults)
 	c.cache[fmt.Sprintf("/calico/bgp/v1/host/%s/ip_addr_v4", NodeName)] = "172.16.0.1"
 	c.cache[fmt.Sprintf("/calico/bgp/v1/host/%s/ip_addr_v6", NodeName)] = "fd00:172::1"
 	c.cache[fmt.Sprintf("/calico/bgp/v1/host/%s/network_v4", NodeName)] = localSubnet
+	c.OnSyncChange(SourceRouteGenerator, true)
+	c.OnSyncChange(SourceLocalBGPPeerWatcher, true)
 	return c
 }
 
@@ -96,7 +100,7 @@ func c28LiveFilters(c *client) (map[int][]string, string) {
 func TestVerifC28ConfdHistory(t *testing.T) {
 	ev.Quiet()
 	rec := ev.New("C28", "confd-history",
-		"one long-lived confd client driven through onUpdates over 3-8 steps: default BGPConfiguration set to one of the four values / created without the field / set to an unrecognised value / deleted (and later re-created), pools added, edited between encapsulation modes, disabled/enabled, deleted; after every step its kernel filter is compared with a fresh client given only the final state, and with Felix's side (setting chosen to form a supported pairing 80% of the time); non-trivial = the history contains a BGPConfiguration delete or field-unset after a non-default value, or a pool edited between classes; distinct = sequence of step kinds",
+		"one long-lived confd client driven through onUpdates over 3-8 steps: default BGPConfiguration set to one of the four values / created without the field / set to an unrecognised value / deleted (and later re-created), pools added, edited between encapsulation modes, disabled/enabled, deleted, and the syncer losing sync (ResyncInProgress / WaitForDatastore), delivering the changes made meanwhile, and reporting in-sync again; after every step taken in sync its kernel filter (read through GetBirdBGPConfig and its revision-keyed cache, as the template does) is compared with a fresh client given only the final state, and with Felix's side (setting chosen to form a supported pairing 80% of the time); non-trivial = the history contains a BGPConfiguration delete or field-unset after a non-default value, or a pool edited between classes, or changes delivered during a resync; distinct = sequence of step kinds",
 		"IPv4 local subnet is known to confd", "updates arrive one batch per step, after the syncer's in-sync")
 	defer rec.Write()
 	fset, bset := c28FelixSettings(), c28BGPSettings()
@@ -109,6 +113,9 @@ func TestVerifC28ConfdHistory(t *testing.T) {
 		c28WithNodeName(func() {
 			localSubnet := "172.16.0.0/24"
 			live := c28NewLiveClient(localSubnet)
+			live.onStatusUpdated(api.InSync) // start of day: empty datastore snapshot, then in sync
+			inSync := true
+			changedWhileAway := false
 			bgp := c28Setting{Kind: "no-object"}
 			pools := map[string]c28Pool{}
 			history := ""
@@ -139,11 +146,31 @@ func TestVerifC28ConfdHistory(t *testing.T) {
 			nSteps := rapid.IntRange(3, 8).Draw(t, "nSteps")
 			for step := 0; step < nSteps && bad == ""; step++ {
 				var batch []api.Update
-				kind := rapid.SampledFrom([]string{"bgp-set", "bgp-set", "bgp-unset-field", "bgp-delete", "pool-add", "pool-add", "pool-edit", "pool-edit", "pool-disable", "pool-delete"}).Draw(t, "step")
+				kind := rapid.SampledFrom([]string{"bgp-set", "bgp-set", "bgp-unset-field", "bgp-delete", "pool-add", "pool-add", "pool-edit", "pool-edit", "pool-disable", "pool-delete", "sync", "sync"}).Draw(t, "step")
 				if step == 0 {
 					kind = "pool-add"
 				}
+				if step == nSteps-1 && !inSync {
+					kind = "sync" // every history ends in sync
+				}
 				switch kind {
+				case "sync":
+					// the syncer loses its connection / watch and resyncs; whatever changed in
+					// the datastore meanwhile is delivered before it reports in-sync again
+					if inSync {
+						kind = "sync-lost"
+						live.onStatusUpdated(rapid.SampledFrom([]api.SyncStatus{api.ResyncInProgress, api.WaitForDatastore}).Draw(t, "lostStatus"))
+						inSync = false
+						changedWhileAway = false
+					} else {
+						kind = "sync-regained"
+						live.onStatusUpdated(api.InSync)
+						inSync = true
+						if changedWhileAway {
+							nontrivial = true
+							classes["changes-delivered-during-resync"] = true
+						}
+					}
 				case "bgp-set":
 					prev := bgp
 					bgp = c28Setting{"value", rapid.SampledFrom(append(append([]string{}, c28Values...), c28Junk[0])).Draw(t, "bgpValue")}
@@ -203,10 +230,15 @@ func TestVerifC28ConfdHistory(t *testing.T) {
 					}
 				}
 				shape = append(shape, kind)
-				if len(batch) == 0 {
+				if len(batch) == 0 && kind != "sync-regained" {
 					continue
 				}
-				live.onUpdates(batch, false)
+				if len(batch) > 0 {
+					live.onUpdates(batch, false)
+					if !inSync {
+						changedWhileAway = true
+					}
+				}
 
 				var cur []c28Pool
 				for _, p := range pools {
@@ -214,6 +246,9 @@ func TestVerifC28ConfdHistory(t *testing.T) {
 				}
 				sort.Slice(cur, func(i, j int) bool { return cur[i].CIDR < cur[j].CIDR })
 				history += fmt.Sprintf("  step %d %s: BGPConfiguration.programClusterRoutes=%v pools=%+v\n", step, kind, bgp, cur)
+				if !inSync {
+					continue // confd renders nothing until it is in sync again (GetValues blocks)
+				}
 
 				got, gap := c28LiveFilters(live)
 				if gap != "" {
@@ -229,7 +264,8 @@ func TestVerifC28ConfdHistory(t *testing.T) {
 				for _, p := range cur {
 					all = append(all, c28PoolUpdate(p))
 				}
-				fresh.onUpdates(all, false)
+				fresh.onUpdates(all, false) // the start-of-day snapshot
+				fresh.onStatusUpdated(api.InSync)
 				want, gap := c28LiveFilters(fresh)
 				if gap != "" {
 					bad = gap
